@@ -6,7 +6,7 @@ import ast
 from ..cfg import CFG, always_raises
 from ..core import AnalysisError, calls_in, call_name, dotted, unparse, walk_no_nested
 from ..core import const_str as const_str_
-from ..match import const_int, inline, kwarg, single_assignments, unpack_call
+from ..match import canon, const_int, inline, kwarg, single_assignments, unpack_call
 from ..report import Ctx
 from ..terms import NODES, ZERO, node_class_terms
 
@@ -367,11 +367,18 @@ def r4_plumbing(ctx: Ctx) -> None:
     st = {unparse(n.targets[0]): unparse(n.value) for n in walk_no_nested(an.node) if isinstance(n, ast.Assign)}
     ctx.check(st.get("self.file_path") == an.params()[1] and st.get("self.expression") == an.params()[2], "IncludeIpsAstNode.__init__", f"fields bound by name; found {st}")
     gi = ctx.repo.func("a816.parse.codegen", "generate_include_ips")
+    from ..match import kwarg
+
     cs = calls_in(gi.node, "IncludeIpsNode")
-    ok = len(cs) == 1 and [unparse(a) for a in cs[0].args] == [f"{gi.params()[0]}.file_path", gi.params()[1], f"{gi.params()[0]}.expression"]
-    ctx.check(ok, "generate_include_ips", "IncludeIpsNode(node.file_path, resolver, node.expression)")
+    ctor = ctx.repo.func(NODES, "IncludeIpsNode.__init__").params()[1:]
+    got = [canon(gi.node, kwarg(cs[0], p_, i)) if kwarg(cs[0], p_, i) is not None else None for i, p_ in enumerate(ctor)] if len(cs) == 1 else []
+    ok = len(cs) == 1 and got == [f"{gi.params()[0]}.file_path", gi.params()[1], f"{gi.params()[0]}.expression"] and len(cs[0].args) + len(cs[0].keywords) == 3
+    ctx.check(ok, "generate_include_ips", f"IncludeIpsNode(node.file_path, resolver, node.expression); found {got}")
     rets = [r for r in walk_no_nested(gi.node) if isinstance(r, ast.Return)]
-    fresh = len(rets) == 1 and isinstance(rets[0].value, ast.List) and len(rets[0].value.elts) == 1 and cs and rets[0].value.elts[0] is cs[0] and len(gi.node.body) == 1
+    # only local bindings, a docstring and the return: nothing is kept across calls
+    plain = all(isinstance(s_, ast.Return) or (isinstance(s_, (ast.Assign, ast.AnnAssign)) and all(isinstance(t_, ast.Name) for t_ in (s_.targets if isinstance(s_, ast.Assign) else [s_.target])))
+                or (isinstance(s_, ast.Expr) and isinstance(s_.value, ast.Constant)) for s_ in gi.node.body)
+    fresh = len(rets) == 1 and isinstance(rets[0].value, ast.List) and len(rets[0].value.elts) == 1 and len(cs) == 1 and canon(gi.node, rets[0].value.elts[0]) == canon(gi.node, cs[0]) and plain
     ctx.check(bool(fresh), "generate_include_ips:fresh-node", "every directive reads its file and applies its own delta: the function only returns a newly built node "
               "(a node cached across directives keeps the first delta and the first file contents)")
     ctx.count("plumbing", 4)
